@@ -162,6 +162,11 @@ func (w *World) oracleHead(bi *BlockInfo) {
 		m.HeadNumber = p.BlockNumber
 		m.BeaconRoot = b.Hash
 		if bi.ELBlock != nil {
+			for _, o := range bi.ELBlock.Ops {
+				if !o.Guards {
+					w.Tainted = true // the execution layer's state now reflects requests no contract would emit
+				}
+			}
 			m.Canon = append(m.Canon, bi.ELBlock)
 			m.CanonAt = append(m.CanonAt, b.Height)
 			m.CanonTime = append(m.CanonTime, b.Time)
@@ -171,6 +176,14 @@ func (w *World) oracleHead(bi *BlockInfo) {
 		w.probe("head-advanced")
 	} else {
 		w.probe("head-stalled")
+		if b.Honest && b.WellBehaved && !w.Tainted {
+			w.Stats.OracleEvals["C08"]++
+			log := ""
+			if len(bi.TxRes) > 0 {
+				log = bi.TxRes[0].Log
+			}
+			w.violate("C08", "honest-block-message-fails", shapeOfLog(log), "height %d: the block message of a proposal honestly built on a well-behaved execution layer and accepted by every replica failed when finalised: %s", b.Height, log)
+		}
 	}
 	if !bytes.Equal(got.EthBlock.BlockHash, m.Head[:]) || got.EthBlock.BlockNumber != m.HeadNumber {
 		w.violate("C09", "recorded-head-differs-from-model", "head-mismatch", "height %d: recorded head %x/%d, model %x/%d (advance=%v)", b.Height, got.EthBlock.BlockHash[:6], got.EthBlock.BlockNumber, m.Head[:6], m.HeadNumber, advance)
@@ -694,3 +707,15 @@ func (m *Models) windowStep(bi *BlockInfo) {
 }
 
 func simEpoch() time.Time { return simEpochVal }
+
+func shapeOfLog(log string) string {
+	for _, k := range []string{"dequeue mismatched", "consensus proposer mismatched", "incorrect parent block", "invalid beacon root", "invalid execution requests", "out of gas"} {
+		if strings.Contains(log, k) {
+			return k
+		}
+	}
+	if len(log) > 50 {
+		return log[:50]
+	}
+	return log
+}
